@@ -1,4 +1,4 @@
-SPECIFICATION FairSpec
+SPECIFICATION Spec
 CONSTANT Machines <- WalkMachines
 CONSTANT WalkDomains <- TWalk
 CONSTANT WalkerDomains <- TWalker
@@ -11,5 +11,4 @@ INVARIANT FwCountsBehavioursInv
 INVARIANT WalkerCountedInv
 INVARIANT WalkerCountInv
 INVARIANT WalkerEnabledInv
-PROPERTY Terminates
 CHECK_DEADLOCK FALSE
